@@ -151,9 +151,27 @@ static void case_nextprime(ByteSource& in, CaseInfo& ci) {
   for (uint64_t i = 1; i < gap.low(); i++) { Int c = N + Int::from_u64(i); bool p = c.fits_u64() ? ref::is_prime_u64(c.low()) : ref::is_prime_small(c); REQUIRE(!p, "%s(%llu): skipped the prime %s", cand ? "mpz_next_prime_candidate" : "mpz_nextprime", (unsigned long long)v, ref::to_string(c, 10).c_str()); }
   if (!cand) { bool p = R.fits_u64() ? ref::is_prime_u64(R.low()) : ref::is_prime_small(R); if (!p) ci.label("nextprime:result_composite(allowed)"); }
 }
+
+// ---- exhaustive sweep: every n in [0, 2^16) through the primality functions, small n through the combinatorial ones ----------
+static uint64_t sweep_count() { return 65536; }
+static void sweep_item(uint64_t i, CaseInfo& ci) {
+  ci.d("n=%llu", (unsigned long long)i); Z n, r; mpz_set_ui(n, i); bool p = ref::is_prime_u64(i); RS rs(i * 2654435761u + 1);
+  int g = mpz_probab_prime_p(n, 25); REQUIRE(p ? g != 0 : g == 0, "mpz_probab_prime_p(%llu, 25) = %d, %s", (unsigned long long)i, g, p ? "prime" : "composite");
+  g = mpz_probable_prime_p(n, rs.s, 50, 0); REQUIRE(p ? g != 0 : g == 0, "mpz_probable_prime_p(%llu, prob 50) = %d, %s", (unsigned long long)i, g, p ? "prime" : "composite");
+  g = mpz_likely_prime_p(n, rs.s, 0); REQUIRE(!(p && g == 0) && !(!p && g == 2), "mpz_likely_prime_p(%llu) = %d, %s", (unsigned long long)i, g, p ? "prime" : "composite");
+  if ((i & 1) && i >= 11) { g = mpz_miller_rabin(n, 10, rs.s); REQUIRE(!(p && g == 0) && !(!p && g == 2), "mpz_miller_rabin(%llu) = %d", (unsigned long long)i, g); }
+  uint64_t nx = i + 1; while (!ref::is_prime_u64(nx)) nx++; mpz_nextprime(r, n); REQUIRE(int_from_mpz(r) == Int::from_u64(nx), "mpz_nextprime(%llu): expected %llu", (unsigned long long)i, (unsigned long long)nx);
+  mpz_next_prime_candidate(r, n, rs.s); { Int R = int_from_mpz(r); REQUIRE(R > Int::from_u64(i) && R <= Int::from_u64(nx), "mpz_next_prime_candidate(%llu): result skips the prime %llu or is not greater than the argument", (unsigned long long)i, (unsigned long long)nx); }
+  if (i <= 1500) { mpz_fac_ui(r, i); REQUIRE(int_from_mpz(r) == ref_mfac(i, 1), "mpz_fac_ui(%llu)", (unsigned long long)i); mpz_2fac_ui(r, i); REQUIRE(int_from_mpz(r) == ref_mfac(i, 2), "mpz_2fac_ui(%llu)", (unsigned long long)i); mpz_primorial_ui(r, i); REQUIRE(int_from_mpz(r) == ref_primorial(i), "mpz_primorial_ui(%llu)", (unsigned long long)i);
+    Int fn, fn1; ref_fib2(i, fn, fn1); Z r2; mpz_fib2_ui(r, r2, i); REQUIRE(int_from_mpz(r) == fn && int_from_mpz(r2) == fn1, "mpz_fib2_ui(%llu)", (unsigned long long)i); mpz_fib_ui(r, i); REQUIRE(int_from_mpz(r) == fn, "mpz_fib_ui(%llu)", (unsigned long long)i);
+    mpz_lucnum2_ui(r, r2, i); REQUIRE(int_from_mpz(r) == fn + fn1 + fn1 && int_from_mpz(r2) == fn1 + (fn - fn1) + (fn - fn1), "mpz_lucnum2_ui(%llu)", (unsigned long long)i); mpz_lucnum_ui(r, i); REQUIRE(int_from_mpz(r) == fn + fn1 + fn1, "mpz_lucnum_ui(%llu)", (unsigned long long)i);
+    for (unsigned m = 3; m <= 5; m++) { mpz_mfac_uiui(r, i, m); REQUIRE(int_from_mpz(r) == ref_mfac(i, m), "mpz_mfac_uiui(%llu,%u)", (unsigned long long)i, m); } }
+  if (i < 90 * 95) { uint64_t nn = i / 95, k = i % 95; Int e = k > nn ? Int(0) : ref::tdiv(prod_range(nn - k + 1, nn, 1), ref_mfac(k, 1)); if (k == 0) e = Int(1); mpz_bin_uiui(r, nn, k); REQUIRE(int_from_mpz(r) == e, "mpz_bin_uiui(%llu,%llu)", (unsigned long long)nn, (unsigned long long)k); Z nz; mpz_set_ui(nz, nn); mpz_bin_ui(r, nz, k); REQUIRE(int_from_mpz(r) == e, "mpz_bin_ui(%llu,%llu)", (unsigned long long)nn, (unsigned long long)k); }
+}
 static void check(ByteSource& in, CaseInfo& ci) { switch (in.pick({5, 5, 4, 3, 8, 3})) { case 0: case_fac(in, ci); break; case 1: case_bin(in, ci); break; case 2: case_fib(in, ci); break; case 3: case_remove(in, ci); break; case 4: case_prime(in, ci); break; default: case_nextprime(in, ci); break; } }
 namespace eng {
 PropDef g_prop = {"C16",
   "Cases: mpz_fac_ui/2fac_ui/mfac_uiui/primorial_ui (n dense to 120, around table ends and FAC thresholds, log-uniform to the scale cap; m in {1..12, n-1, n, n+1, > n}); mpz_bin_uiui on (n,k) shapes for each algorithm region (small, k near 0 or n, central, huge n with small k, k>n) and mpz_bin_ui with negative and multi-limb n; mpz_fib_ui/fib2_ui/lucnum_ui/lucnum2_ui (dense to 200, around 93/186 table limits, log-uniform beyond, n=0); mpz_remove (f>=2 only: 2, small, 2^j, multi-limb; multiplicity 0..thousands; negative op; aliasing); primality: all n < 70000, n near 2^16/2^31/2^32/2^53/2^63/2^64, random 64-bit, Chernick Carmichael numbers, strong pseudoprimes (psi values), squares and products of close primes, large primes of special form (Mersenne, 2^k+-c) and composites built from them; nextprime / next_prime_candidate incl. starts of large prime gaps and arguments next to 2^64. Oracle: refint by definition (product trees, multiplicative binomial with verified exact division, fast-doubling Fibonacci); deterministic Miller-Rabin for n < 2^81, construction knowledge beyond; checks: never 0 for a prime, never 2 for a composite, 0 for composites at reps>=25 / prob>=50, result > n with no prime strictly between. mpz_miller_rabin only on odd n >= 11. Non-trivial: result >= 2 limbs / n > 3. Distinct = hash of all decoded choices.",
-  check, setup_primes, {"carmichael", "strong_pseudoprime", "semiprime_close", "large_prime_special_form", "large_composite_special_form", "near_2^k", "bin:k_gt_n", "bin_ui:negative_n", "bin_ui:multi_limb_n", "mfac:m_gt_n", "fac:ge_dsc_threshold", "fib:n0", "large_gap_start", "remove:negative_op"}};
+  check, setup_primes, {"carmichael", "strong_pseudoprime", "semiprime_close", "large_prime_special_form", "large_composite_special_form", "near_2^k", "bin:k_gt_n", "bin_ui:negative_n", "bin_ui:multi_limb_n", "mfac:m_gt_n", "fac:ge_dsc_threshold", "fib:n0", "large_gap_start", "remove:negative_op"}, nullptr, sweep_count, sweep_item,
+  "every n in [0,2^16): mpz_probab_prime_p (25 reps), mpz_probable_prime_p (prob 50), mpz_likely_prime_p, mpz_miller_rabin (odd n>=11), mpz_nextprime (exact next prime), mpz_next_prime_candidate; every n <= 1500: fac, 2fac, mfac m=3..5, primorial, fib, fib2, lucnum, lucnum2; every (n,k) in [0,89]x[0,94]: bin_uiui, bin_ui"};
 }
